@@ -5,7 +5,7 @@
    not depend on the letter case of object keys (json_keys_recase); the two
    defects of the pinned code as refutations of the pre-repair definitions. *)
 From AL Require Import Expr.Recase Expr.TypesProofs Expr.SemaProofs Out.StableSort Base.StrOrder.
-From AL Require Expr.UntrustedSpec.
+From AL Require Expr.UntrustedSpec Expr.Untrusted Expr.UntrustedProofs.
 
 (* ---- same_fold -------------------------------------------------------------------- *)
 Lemma same_fold_refl s : same_fold s s.
@@ -488,3 +488,11 @@ Example json_keys_collide :
   type_of_json (JObj [("foo", JStr); ("Foo", JNum); ("b", JBool)]) = TObj [("b", TBool); ("foo", TStr)] None /\
   type_of_json (JObj [("Foo", JObj [("x", JNum)]); ("foo", JNum)]) = TObj [("foo", TAny)] None.
 Proof. split; reflexivity. Qed.
+
+(* ---- the untrusted-input checker hooked into check (C11) in the vocabulary of this file --- *)
+Theorem untrusted_recase_rel roots funcs e e' : recase_rel e e' ->
+  Untrusted.reported true roots (Untrusted.events funcs (parser_fold e)) =
+  Untrusted.reported true roots (Untrusted.events funcs (parser_fold e')).
+Proof.
+  intros R. rewrite !parser_fold_pnorm. apply UntrustedProofs.untrusted_recase. now apply recase_rel_untrusted.
+Qed.
